@@ -22,7 +22,10 @@ Inductive op :=
 | OSListen (o l : N) | OSUnlisten (o l : N)
 | OWhenBuilt (o w : N) | OWhenClosed (o w : N)   (* wait w := circuit o .when_built() / .when_closed() *)
 | OCClose (o w : N) | OSClose (o w : N)          (* wait w := circuit / stream o .close() *)
-| OAck.                                          (* Tor answers the oldest unanswered close command *)
+| OAck                                           (* Tor answers the oldest unanswered close command *)
+| OBuild (rs : list N) (w : N)                   (* wait w := TorState.build_circuit(relays rs) *)
+| OExtended (id : N)                             (* Tor answers the oldest unanswered EXTENDCIRCUIT: 250 EXTENDED id *)
+| OBuildErr.                                     (* ... or with an error *)
 
 (* outcome of a wait *)
 Inductive wres :=
@@ -50,7 +53,8 @@ Inductive nev :=
 | NCirc (l m o arg : N) (fl : kws)     (* circuit listener l: method m on Circuit object o, argument, keyword args *)
 | NStream (l m o arg : N) (fl : kws)
 | NDone (w : N) (r : wres)
-| NCmd (kind id : N)                   (* submitted to the control connection: 0 CLOSECIRCUIT id, 1 CLOSESTREAM id *)
+| NCmd (kind id : N)                   (* submitted to the control connection: 0 CLOSECIRCUIT id, 1 CLOSESTREAM id;
+                                          EXTENDCIRCUIT 0 r1,..,rn is NCmd 2 n followed by NCmd 3 r1 .. NCmd 3 rn *)
 | NRaised (k : N).
 
 (* Tor's flags as the listener receives them: every keyword under its upper-case and its lower-case name
@@ -70,11 +74,15 @@ Record lstate := { l_tv : tview;
                    l_cinfo : list (N * oinfo); l_sinfo : list (N * oinfo);
                    l_cregs : list (N * list N); l_sregs : list (N * list N);   (* object -> registered listeners *)
                    l_gcl : list N; l_gsl : list N;                        (* listeners added globally *)
-                   l_used : list N }.                                     (* wait ids used so far *)
+                   l_used : list N;                                       (* wait ids used so far *)
+                   (* the control connection answers in order: EXTENDCIRCUITs not yet answered; an upper bound of the
+                      close commands not yet answered.  The property does not depend on how answers of the two kinds
+                      interleave, so the quantifier keeps them apart: one of the two numbers is always 0 *)
+                   l_nb : N; l_ncl : N }.
 
 Definition ls0 : lstate :=
   {| l_tv := tv0; l_cdict := []; l_sdict := []; l_nc := 0; l_ns := 0; l_cinfo := []; l_sinfo := []; l_cregs := [];
-     l_sregs := []; l_gcl := []; l_gsl := []; l_used := [] |}.
+     l_sregs := []; l_gcl := []; l_gsl := []; l_used := []; l_nb := 0; l_ncl := 0 |}.
 
 Definition add_once (l : N) (ls : list N) : list N := if memN l ls then ls else ls ++ [l].
 Definition dedupe (ls : list N) : list N := fold_left (fun acc l => add_once l acc) ls [].
@@ -92,9 +100,7 @@ Definition add_to_all (l : N) (dict : list (N * N)) (regs : list (N * list N)) :
 Definition info0 (id : N) : oinfo := {| oi_id := id; oi_built := false |}.
 
 (* None = not a history the property quantifies over *)
-Definition lstep (ls : lstate) (o : op) : option lstate :=
-  match o with
-  | OEv e =>
+Definition lstep_ev (ls : lstate) (e : event) : option lstate :=
       if negb (ev_legal (l_tv ls) e) then None else
       let tv' := tor_step (l_tv ls) e in
       match e with
@@ -111,7 +117,7 @@ Definition lstep (ls : lstate) (o : op) : option lstate :=
                                   oi_built := oi_built old || match st with CBuilt => true | _ => false end |};
                   l_sinfo := l_sinfo ls;
                   l_cregs := if first then tset (l_cregs ls) o (dedupe (l_gcl ls)) else l_cregs ls;
-                  l_sregs := l_sregs ls; l_gcl := l_gcl ls; l_gsl := l_gsl ls; l_used := l_used ls |}
+                  l_sregs := l_sregs ls; l_gcl := l_gcl ls; l_gsl := l_gsl ls; l_used := l_used ls; l_nb := l_nb ls; l_ncl := l_ncl ls |}
       | EStream id st cid host port kw =>
           let '(first, o) := locate id (l_sdict ls) (l_ns ls) in
           let d1 := if first then l_sdict ls ++ [(id, o)] else l_sdict ls in
@@ -121,59 +127,77 @@ Definition lstep (ls : lstate) (o : op) : option lstate :=
                   l_cinfo := l_cinfo ls; l_sinfo := tset (l_sinfo ls) o (info0 id);
                   l_cregs := l_cregs ls;
                   l_sregs := if first then tset (l_sregs ls) o (dedupe (l_gsl ls)) else l_sregs ls;
-                  l_gcl := l_gcl ls; l_gsl := l_gsl ls; l_used := l_used ls |}
-      end
+                  l_gcl := l_gcl ls; l_gsl := l_gsl ls; l_used := l_used ls; l_nb := l_nb ls; l_ncl := l_ncl ls |}
+      end.
+
+Definition with_q (ls : lstate) (nb ncl : N) : lstate :=
+  {| l_tv := l_tv ls; l_cdict := l_cdict ls; l_sdict := l_sdict ls; l_nc := l_nc ls; l_ns := l_ns ls;
+     l_cinfo := l_cinfo ls; l_sinfo := l_sinfo ls; l_cregs := l_cregs ls; l_sregs := l_sregs ls;
+     l_gcl := l_gcl ls; l_gsl := l_gsl ls; l_used := l_used ls; l_nb := nb; l_ncl := ncl |}.
+Definition use_q (ls : lstate) (w nb ncl : N) : lstate :=
+  {| l_tv := l_tv ls; l_cdict := l_cdict ls; l_sdict := l_sdict ls; l_nc := l_nc ls; l_ns := l_ns ls;
+     l_cinfo := l_cinfo ls; l_sinfo := l_sinfo ls; l_cregs := l_cregs ls; l_sregs := l_sregs ls;
+     l_gcl := l_gcl ls; l_gsl := l_gsl ls; l_used := w :: l_used ls; l_nb := nb; l_ncl := ncl |}.
+
+(* the answer 250 EXTENDED id names a circuit Tor has, none of whose hops was reported yet, or one it is about to announce *)
+Definition ext_ok (tv : tview) (id : N) : bool :=
+  match kfind tc_id id (tcs tv) with Some o => match tc_path o with [] => true | _ => false end | None => true end.
+
+(* None = not a history the property quantifies over *)
+Definition lstep (ls : lstate) (o : op) : option lstate :=
+  match o with
+  | OEv e => lstep_ev ls e
   | OAddCL l =>
       Some {| l_tv := l_tv ls; l_cdict := l_cdict ls; l_sdict := l_sdict ls; l_nc := l_nc ls; l_ns := l_ns ls;
               l_cinfo := l_cinfo ls; l_sinfo := l_sinfo ls;
               l_cregs := add_to_all l (l_cdict ls) (l_cregs ls); l_sregs := l_sregs ls;
-              l_gcl := l_gcl ls ++ [l]; l_gsl := l_gsl ls; l_used := l_used ls |}
+              l_gcl := l_gcl ls ++ [l]; l_gsl := l_gsl ls; l_used := l_used ls; l_nb := l_nb ls; l_ncl := l_ncl ls |}
   | OAddSL l =>
       Some {| l_tv := l_tv ls; l_cdict := l_cdict ls; l_sdict := l_sdict ls; l_nc := l_nc ls; l_ns := l_ns ls;
               l_cinfo := l_cinfo ls; l_sinfo := l_sinfo ls;
               l_cregs := l_cregs ls; l_sregs := add_to_all l (l_sdict ls) (l_sregs ls);
-              l_gcl := l_gcl ls; l_gsl := l_gsl ls ++ [l]; l_used := l_used ls |}
+              l_gcl := l_gcl ls; l_gsl := l_gsl ls ++ [l]; l_used := l_used ls; l_nb := l_nb ls; l_ncl := l_ncl ls |}
   | OCListen o l =>
       if o <? l_nc ls then
         Some {| l_tv := l_tv ls; l_cdict := l_cdict ls; l_sdict := l_sdict ls; l_nc := l_nc ls; l_ns := l_ns ls;
                 l_cinfo := l_cinfo ls; l_sinfo := l_sinfo ls;
                 l_cregs := tset (l_cregs ls) o (add_once l (tget [] (l_cregs ls) o)); l_sregs := l_sregs ls;
-                l_gcl := l_gcl ls; l_gsl := l_gsl ls; l_used := l_used ls |}
+                l_gcl := l_gcl ls; l_gsl := l_gsl ls; l_used := l_used ls; l_nb := l_nb ls; l_ncl := l_ncl ls |}
       else None
   | OCUnlisten o l =>        (* only a listener that is registered can be removed *)
       if (o <? l_nc ls) && memN l (tget [] (l_cregs ls) o) then
         Some {| l_tv := l_tv ls; l_cdict := l_cdict ls; l_sdict := l_sdict ls; l_nc := l_nc ls; l_ns := l_ns ls;
                 l_cinfo := l_cinfo ls; l_sinfo := l_sinfo ls;
                 l_cregs := tset (l_cregs ls) o (remove1 l (tget [] (l_cregs ls) o)); l_sregs := l_sregs ls;
-                l_gcl := l_gcl ls; l_gsl := l_gsl ls; l_used := l_used ls |}
+                l_gcl := l_gcl ls; l_gsl := l_gsl ls; l_used := l_used ls; l_nb := l_nb ls; l_ncl := l_ncl ls |}
       else None
   | OSListen o l =>
       if o <? l_ns ls then
         Some {| l_tv := l_tv ls; l_cdict := l_cdict ls; l_sdict := l_sdict ls; l_nc := l_nc ls; l_ns := l_ns ls;
                 l_cinfo := l_cinfo ls; l_sinfo := l_sinfo ls; l_cregs := l_cregs ls;
                 l_sregs := tset (l_sregs ls) o (add_once l (tget [] (l_sregs ls) o));
-                l_gcl := l_gcl ls; l_gsl := l_gsl ls; l_used := l_used ls |}
+                l_gcl := l_gcl ls; l_gsl := l_gsl ls; l_used := l_used ls; l_nb := l_nb ls; l_ncl := l_ncl ls |}
       else None
   | OSUnlisten o l =>
       if (o <? l_ns ls) && memN l (tget [] (l_sregs ls) o) then
         Some {| l_tv := l_tv ls; l_cdict := l_cdict ls; l_sdict := l_sdict ls; l_nc := l_nc ls; l_ns := l_ns ls;
                 l_cinfo := l_cinfo ls; l_sinfo := l_sinfo ls; l_cregs := l_cregs ls;
                 l_sregs := tset (l_sregs ls) o (remove1 l (tget [] (l_sregs ls) o));
-                l_gcl := l_gcl ls; l_gsl := l_gsl ls; l_used := l_used ls |}
+                l_gcl := l_gcl ls; l_gsl := l_gsl ls; l_used := l_used ls; l_nb := l_nb ls; l_ncl := l_ncl ls |}
       else None
-  | OWhenBuilt o w | OWhenClosed o w | OCClose o w =>      (* the object exists, the wait id is fresh *)
-      if (o <? l_nc ls) && negb (memN w (l_used ls)) then
-        Some {| l_tv := l_tv ls; l_cdict := l_cdict ls; l_sdict := l_sdict ls; l_nc := l_nc ls; l_ns := l_ns ls;
-                l_cinfo := l_cinfo ls; l_sinfo := l_sinfo ls; l_cregs := l_cregs ls; l_sregs := l_sregs ls;
-                l_gcl := l_gcl ls; l_gsl := l_gsl ls; l_used := w :: l_used ls |}
-      else None
+  | OWhenBuilt o w | OWhenClosed o w =>      (* the object exists, the wait id is fresh *)
+      if (o <? l_nc ls) && negb (memN w (l_used ls)) then Some (use_q ls w (l_nb ls) (l_ncl ls)) else None
+  | OCClose o w =>
+      if (o <? l_nc ls) && negb (memN w (l_used ls)) && (l_nb ls =? 0) then Some (use_q ls w (l_nb ls) (l_ncl ls + 1)) else None
   | OSClose o w =>
-      if (o <? l_ns ls) && negb (memN w (l_used ls)) then
-        Some {| l_tv := l_tv ls; l_cdict := l_cdict ls; l_sdict := l_sdict ls; l_nc := l_nc ls; l_ns := l_ns ls;
-                l_cinfo := l_cinfo ls; l_sinfo := l_sinfo ls; l_cregs := l_cregs ls; l_sregs := l_sregs ls;
-                l_gcl := l_gcl ls; l_gsl := l_gsl ls; l_used := w :: l_used ls |}
-      else None
-  | OAck => Some ls
+      if (o <? l_ns ls) && negb (memN w (l_used ls)) && (l_nb ls =? 0) then Some (use_q ls w (l_nb ls) (l_ncl ls + 1)) else None
+  | OAck => if l_nb ls =? 0 then Some (with_q ls (l_nb ls) (l_ncl ls - 1)) else None
+  | OBuild rs w =>
+      if (l_ncl ls =? 0) && negb (memN w (l_used ls)) then Some (use_q ls w (l_nb ls + 1) (l_ncl ls)) else None
+  | OExtended id =>
+      if (0 <? l_nb ls) && ext_ok (l_tv ls) id
+      then option_map (fun l => with_q l (l_nb ls - 1) (l_ncl ls)) (lstep_ev ls (ext_event id)) else None
+  | OBuildErr => if 0 <? l_nb ls then Some (with_q ls (l_nb ls - 1) (l_ncl ls)) else None
   end.
 
 Fixpoint legal8_from (ls : lstate) (ops : list op) : bool :=
@@ -289,6 +313,10 @@ Definition notif_check (ls : lstate) (o : op) (es : list nev) : bool :=
                          | _, _ => None
                          end in
       notif_ok false regs (expected_stream ob st attached_to kw) es
+  | OExtended id =>       (* the circuit is new to the listeners iff no event announced it before the answer *)
+      let '(first, ob) := locate id (l_cdict ls) (l_nc ls) in
+      let regs := if first then dedupe (l_gcl ls) else tget [] (l_cregs ls) ob in
+      notif_ok true regs (expected_circ first O ob CExtended [] []) es
   | _ => no_notifs es
   end.
 
@@ -380,6 +408,30 @@ Definition spec_ack (s : sstate) (es : list nev) : bool * list wait * list (N * 
        q)
   end.
 
+(* build_circuit(): the EXTENDCIRCUIT command is submitted, nothing else happens; the call is answered later *)
+Definition nev_eqb0 (a b : nev) : bool :=
+  match a, b with NCmd k1 i1, NCmd k2 i2 => (k1 =? k2) && (i1 =? i2) | _, _ => false end.
+Definition spec_build (s : sstate) (rs : list N) (w : N) (es : list nev) : bool * list wait * list (N * bool) :=
+  (list_eqb nev_eqb0 es (NCmd 2 (N.of_nat (length rs)) :: map (NCmd 3) rs), s_open s, s_cmdq s ++ [(w, true)]).
+
+(* 250 EXTENDED id: the oldest build_circuit() completes with the Circuit object standing for id -- the one
+   already announced if an event for id came first, else a new one, announced (circuit_new) now *)
+Definition spec_extended (s : sstate) (id : N) (es : list nev) : bool * list wait * list (N * bool) :=
+  let ls := s_l s in
+  match s_cmdq s with
+  | [] => (false, s_open s, [])
+  | (w, _) :: q =>
+      let '(first, o) := locate id (l_cdict ls) (l_nc ls) in
+      (notif_check ls (OExtended id) es && done_ok [(w, WantOkC o)] [] es && negb (has_cmd es) && negb (raised es),
+       s_open s, q)
+  end.
+
+Definition spec_builderr (s : sstate) (es : list nev) : bool * list wait * list (N * bool) :=
+  match s_cmdq s with
+  | [] => (false, s_open s, [])
+  | (w, _) :: q => (no_notifs es && done_ok [(w, WantFail)] [] es && negb (has_cmd es) && negb (raised es), s_open s, q)
+  end.
+
 Definition quiet (es : list nev) : bool := match es with [] => true | _ => false end.
 
 (* None = the observations of this operation violate the property (or the history is not legal) *)
@@ -395,6 +447,9 @@ Definition spec_op (s : sstate) (o : op) (es : list nev) : option sstate :=
         | OCClose ob w => spec_request s true ob w KClose es
         | OSClose ob w => spec_request s false ob w KClose es
         | OAck => spec_ack s es
+        | OBuild rs w => spec_build s rs w es
+        | OExtended id => spec_extended s id es
+        | OBuildErr => spec_builderr s es
         | _ => (quiet es, s_open s, s_cmdq s)
         end in
       if ok then Some {| s_l := ls'; s_open := open'; s_cmdq := cmdq' |} else None
